@@ -213,6 +213,31 @@ def rule_eq_key_complete(ctx: Ctx, rep: Report) -> None:
            f"the curve's key is {sorted(c_)}: it lacks {sorted((need_c | ({'p', 'a', 'b'} if '<super>' not in c_ else set())) - c_)} -- two curves differing there are one curve to `==`, to `hash` and to the memoized tables")
 
 
+def rule_glv_only_secp256k1(ctx: Ctx, rep: Report) -> None:
+    """C01.glv_only_secp256k1: the endomorphism split uses constants (beta,
+    lambda, the lattice basis) that are secp256k1's own: the arm that takes it
+    is entered for `ec == secp256k1` and for nothing "like" it -- another curve
+    y^2 = x^3 + b over the same field has another lambda, and the split answers
+    a point that is on the curve and is not u*H + v*Q."""
+    rule = "C01.glv_only_secp256k1"
+    n = 0
+    for fi in sorted(ctx.module(CV).functions.values(), key=lambda f: f.qualname):
+        g = None
+        for c in own_nodes(fi.node):
+            if isinstance(c, ast.Call) and any(w in call_name(c).lower() for w in ("glv", "endo", "_split")) and fi.name != call_name(c):
+                tgt = ctx.resolve_call(fi, c) or ""
+                if not tgt.startswith("btclib.curves"):
+                    continue
+                g = g or ctx.cfg(fi)
+                n += 1
+                facts = g.facts_at_ast(c)
+                ok = any(p_ and str(t) in ("ec == secp256k1", "secp256k1 == ec", "ec is secp256k1") for t, p_ in facts)
+                rep.ob(rule, f"{fi.qualname}->{call_name(c)}", ok, fi.where(c), "entered for secp256k1 itself" if ok else
+                       f"`{call_name(c)}` is reached under {[str(t) for t, p_ in facts if p_][:3]}: a curve that merely resembles secp256k1 is multiplied with secp256k1's endomorphism constants")
+    if n == 0:
+        rep.unknown(rule, "glv", f"{ctx.module(CV).relpath}:1", "no call of an endomorphism helper found by name")
+
+
 def rule_reduce(ctx: Ctx, rep: Report) -> None:
     """C01.reduce: the scalar handed to a multiplication is reduced mod the order."""
     rule = "C01.reduce"
@@ -234,7 +259,10 @@ def rule_reduce(ctx: Ctx, rep: Report) -> None:
         # the reduction precedes the first sink
         if ok:
             g = ctx.cfg(fi)
-            dn = [i for d in defs for i in g.nodes_containing(d.value if not isinstance(d, ast.AugAssign) else d.value)]
+            # only the definitions that reduce: `m = int(m)` ... `if m >= n: m %= n` leaves a negative m unreduced
+            red = [d for d in defs if (isinstance(d, ast.AugAssign) and isinstance(d.op, ast.Mod)) or
+                   (not isinstance(d, ast.AugAssign) and d.value is not None and isinstance(d.value, ast.BinOp) and isinstance(d.value.op, ast.Mod))]
+            dn = [i for d in red for i in g.nodes_containing(d.value)]
             sinks = [c for c in own_nodes(fi.node) if isinstance(c, ast.Call) and (call_name(c) in SINKS or call_name(c) in ("tweak_add",)) and v in {x.id for a in c.args for x in ast.walk(a) if isinstance(x, ast.Name)}]
             tg = [i for c in sinks for i in g.nodes_containing(c)]
             rep.ob(rule, f"{q}({v}):before_use", not tg or g.path_avoiding(tg, dn) is None, fi.where(), "reduced before the multiplication")
@@ -351,6 +379,7 @@ RULES = [
     ("C01.infinity_by_y", rule_infinity_by_y),
     ("C01.coordinates_in_field", rule_coordinates_in_field),
     ("C01.eq_key_complete", rule_eq_key_complete),
+    ("C01.glv_only_secp256k1", rule_glv_only_secp256k1),
     ("C01.reduce", rule_reduce),
     ("C01.operand_reduced", rule_operand_reduced),
     ("C01.curve_ctor", rule_curve_ctor),
